@@ -261,6 +261,16 @@ ROUND5 = {
 }
 
 
+# workloads added after the sixth round (DESIGN.md §9.5)
+ROUND6 = {
+    "C05": " Long densely shaded patterns with short ones induced from them; blocked regions.",
+    "C07": " Mesh classes with an empty level below non-empty ones.",
+    "C08": " All ordered triples and sorted() over families of nested shadings.",
+    "C11": " Fifteen length-11 permutations whose holeyness needs three runs of positions.",
+    "C20": " Every block of the shipped files is also judged by the library's own predicate of that name.",
+}
+
+
 def main():
     props = [json.loads(l) for l in open(os.path.join(HERE, "properties.jsonl"))]
     checks, na = [], []
@@ -275,7 +285,7 @@ def main():
                 "evidence_file": f"/verif/evidence/{pid}.json",
                 "replay_cmd_template": f"./check {pid} --replay {{path}}",
                 "engine": "vf",
-                "level_claimed": {"category": "exploration", "text": c["text"] + ROUND3.get(pid, "") + ROUND4.get(pid, "") + ROUND5.get(pid, ""), "design_ref": c["ref"]},
+                "level_claimed": {"category": "exploration", "text": c["text"] + ROUND3.get(pid, "") + ROUND4.get(pid, "") + ROUND5.get(pid, "") + ROUND6.get(pid, ""), "design_ref": c["ref"]},
                 "level_note": c["note"],
                 "technique": c["technique"],
             })
